@@ -78,6 +78,7 @@ def cases(tier, seed):
                 "done": ["mixed", "mixed", "all0", "all1"][r % 4] if r else "mixed",
                 "steps": int(rng.integers(1, 7)),
                 "after": afters[int(rng.integers(len(afters)))] if r else "none",
+                "op_again_at": int(rng.integers(1, 5)),
                 "seed": int(rng.integers(1 << 30)),
             }
             if algo in ("DDPG", "TD3"):
@@ -114,8 +115,10 @@ def _apply_after(agent, case, rec):
     from vf import agentops, zoo
 
     op = case["after"]
-    # one warm-up learn so that optimizer moments / lagging targets exist before the operation
-    zoo.learn(agent, batch_seed=case["seed"] % 977)
+    # warm-up so that optimizer moments / lagging targets exist AND at least one soft update has been executed
+    # before the operation (delayed learners only update targets every policy_freq-th step)
+    for w in range(int(getattr(agent, "policy_freq", 1) or 1)):
+        zoo.learn(agent, batch_seed=case["seed"] % 977 + w)
     if op == "none":
         return agent
     if op == "clone":
@@ -349,6 +352,17 @@ def run_case(case):
     masked_ran = False
     leaves_cmp = 0
     for step in range(case["steps"]):
+        if step > 0 and step == case.get("op_again_at") and case["after"] != "none":
+            # the same operation once more in the middle of the learn sequence (learn, op, learn ...)
+            try:
+                agent = _apply_after(agent, dict(case, seed=case["seed"] + step), rec)
+                rec.hit("mid_sequence_operations")
+            except CaseTimeout:
+                raise
+            except Exception as e:
+                rec.hit("mid_sequence_operation_failed(info)")
+                rec.extra["mid_sequence_operation_failed"] = f"{type(e).__name__}: {str(e)[:100]}"
+                break
         n = agent.batch_size
         dv = _done_vector(case["done"], n, rng)
         bseed = int(rng.integers(1 << 30))
